@@ -16,6 +16,7 @@ SIG_T = {
     # a direct slot AFTER the child in the library's syntax, W(AppliedId, Slot) / Wb(Bind<AppliedId>, Slot); in this DSL the
     # slot is written first like every direct slot: (w 1 (f 1 2)) is the library's (w (f $1 $2) $1)
     "w": (1, [0]), "wb": (1, [1]),
+    "ite": (0, [0, 0, 0]),
 }
 
 def tokenize(s):
@@ -283,7 +284,26 @@ U14 = universe("U14", 4, [
 ], base=["(w 3 (p 1 2))", "(wb 3 2 (p 1 2))", "(g (w 3 (p 1 2)))", "(w 1 (p 1 2))"],
    note="a direct slot of a parent that no child mentions, child loses a slot")
 
-ALL = {"U14": U14, "U13": U13, "U12": U12, "U11": U11, "U10": U10, "U9": U9, "U8": U8, "U7": U7, "U1": U1, "U2": U2, "U3": U3, "U4": U4, "U5": U5, "U6": U6}
+# U15 "three children": an e-node with the SAME child class at two non-adjacent positions, ite(A, B, A) (seeded C06m: a counter
+# of outstanding child classes that de-duplicates only adjacent ids), as the cheapest term of its class, as the only term of its
+# class, under a parent.
+U15 = universe("U15", 4, [
+    ("(ite (v 1) c (v 1))", "(g (g (g (g (v 1)))))"),
+    ("(ite (v 1) d (v 2))", "(g (g (g (h (v 1) (v 2)))))"),
+    (C, D),
+], base=["(ite (v 1) c (v 1))", "(ite (v 1) d (v 2))", "(g (ite (v 1) c (v 1)))", "(ite (v 2) (v 1) (v 2))"],
+   note="ternary operator, child class repeated at non-adjacent positions")
+
+# U16 "self-reference through a dead id": c = g(c) where the class of g(c) survives the union (it has two parents), so the
+# e-node g(<dead id of c>) is stale when it is processed and its re-make improves its OWN class (height tags): D25.
+U16 = universe("U16", 4, [
+    (C, "(g c)"),
+    (D, "(g (g c))"),
+    ("(v 1)", "(h (v 1) d)"),
+], base=["(g c)", "(g (g c))", "(h (g c) d)", "(lam 1 (h (g c) (v 1)))"],
+   note="an e-node that reaches its own class through a merged-away id")
+
+ALL = {"U16": U16, "U15": U15, "U14": U14, "U13": U13, "U12": U12, "U11": U11, "U10": U10, "U9": U9, "U8": U8, "U7": U7, "U1": U1, "U2": U2, "U3": U3, "U4": U4, "U5": U5, "U6": U6}
 
 if __name__ == "__main__":
     out = os.path.dirname(os.path.abspath(__file__))
